@@ -661,6 +661,9 @@ func (d *protoDom) splitCopy(e *sched, st *sState, call *ssa.Call) []*sState {
 // (priv[len(priv)-1] after len(priv) <= 32) is decided per length: the state becomes the first feasible length and the
 // other lengths are returned as new states
 func (d *protoDom) split(e *sched, st *sState, in ssa.Instruction) []*sState {
+	if bo, ok := in.(*ssa.BinOp); ok {
+		return d.splitVerdictBits(e, st, bo)
+	}
 	x, ok := in.(*ssa.IndexAddr)
 	if !ok {
 		return nil
@@ -736,6 +739,30 @@ func (d *protoDom) normInt(st *sState, t *pt) *pt {
 			return inner
 		}
 		return &pt{op: "trunc", args: []*pt{inner}, k: t.k}
+	}
+	if t.op == "mod" && len(t.args) == 1 {
+		// a residue whose argument the path confines to one window of width n is that argument shifted
+		inner := d.normInt(st, t.args[0])
+		N := pSym("N")
+		// the residue of -y is n minus the residue of y, unless that is zero
+		if inner.op == "mul" && len(inner.args) == 2 && inner.args[0].op == "c" && inner.args[0].n.Cmp(big.NewInt(-1)) == 0 {
+			ry := d.normInt(st, &pt{op: "mod", args: []*pt{inner.args[1]}})
+			if proveP(st.pfacts, ry, token.GEQ, pC(1)) {
+				return pAdd(N, pNeg(ry))
+			}
+			if proveP(st.pfacts, ry, token.EQL, pC(0)) {
+				return pC(0)
+			}
+		}
+		switch {
+		case proveP(st.pfacts, inner, token.GEQ, pC(0)) && proveP(st.pfacts, inner, token.LSS, N):
+			return inner
+		case proveP(st.pfacts, inner, token.LSS, pC(0)) && proveP(st.pfacts, pAdd(inner, N), token.GEQ, pC(0)):
+			return pAdd(inner, N)
+		case proveP(st.pfacts, inner, token.GEQ, N) && proveP(st.pfacts, inner, token.LSS, pMul(pC(2), N)):
+			return pAdd(inner, pNeg(N))
+		}
+		return &pt{op: "mod", args: []*pt{inner}}
 	}
 	if t.op == "val" && len(t.args) == 1 && t.args[0].op == "sub" && t.args[0].args[0].op == "be" {
 		// the low bytes of a fixed-width encoding carry the whole value when it fits them
@@ -889,4 +916,44 @@ func rangeProves(a *pt, op token.Token, b *pt) bool {
 		return (al != nil && bh != nil && al.Cmp(bh) > 0) || (ah != nil && bl != nil && ah.Cmp(bl) < 0)
 	}
 	return false
+}
+
+// splitVerdictBits: 0/1 results of equality predicates (IsZero, Equal, ConstantTimeCompare) combined with | & ^ (a
+// non-short-circuit "any of these" test): each predicate is decided first, one state per outcome, so that the combination is
+// a concrete 0/1 and the facts of the path say which predicate held
+func (d *protoDom) splitVerdictBits(e *sched, st *sState, bo *ssa.BinOp) []*sState {
+	if bo.Op != token.OR && bo.Op != token.AND && bo.Op != token.XOR {
+		return nil
+	}
+	states := []*sState{st}
+	for _, opnd := range []ssa.Value{bo.X, bo.Y} {
+		if _, isConst := opnd.(*ssa.Const); isConst {
+			continue
+		}
+		var next []*sState
+		for _, cur := range states {
+			pi, ok := e.get(cur, opnd).(pInt)
+			if !ok || pi.t.op != "eqb" || len(pi.t.args) != 2 {
+				next = append(next, cur)
+				continue
+			}
+			cond := pCond{a: pi.t.args[0], b: pi.t.args[1], op: token.EQL, raw: "bytes"}
+			no := cur.clone()
+			d.assumeCond(cur, cond, true)
+			cur.vals[opnd] = sInt{big.NewInt(1)}
+			d.assumeCond(no, cond, false)
+			no.vals[opnd] = sInt{big.NewInt(0)}
+			for _, c := range []*sState{cur, no} {
+				if c == cur || !d.infeasible(c) {
+					next = append(next, c)
+				}
+			}
+		}
+		states = next
+	}
+	// st must stay the first state (it is modified in place); an infeasible st is marked dead
+	if d.infeasible(st) {
+		st.dead = true
+	}
+	return states[1:]
 }
